@@ -318,7 +318,7 @@ def run(req, rep):
                  "nodes) and a polytomy input x reverse/rotate/random renumberings x 3 re-timings x combined; "
                  "methods inside_outside and maximization in logarithmic and linear space")
     rep.bound = (f"tier={tier}: leaves<= {5 if thorough else 4} ({sum(1 for c in cases if c[3])} shapes), "
-                 f"{sum(1 for c in cases if not c[3])} simulated inputs with <= 40 nodes and <= 8 samples, "
+                 f"{sum(1 for c in cases if not c[3])} simulated inputs with <= 40 nodes and <= {8 if thorough else 7} samples, "
                  f"rtol {RTOL}")
     rep.exhaustive = False
 
